@@ -125,6 +125,13 @@ class ColumnBackend(ArraySchemaBackend):
                     )
                 except SchemaErrors as exc:
                     error_handler.collect_errors(exc.schema_errors)
+                except SchemaError as exc:
+                    # raised again at once unless validation is lazy
+                    error_handler.collect_error(
+                        validation_type(exc.reason_code),
+                        exc.reason_code,
+                        exc,
+                    )
 
             if is_table(check_obj[column_name]):
                 for i in range(check_obj[column_name].shape[1]):
